@@ -43,7 +43,10 @@ def run_check(prop, tree):
 
 def evaluate(entry, repo, props):
     kind, cid, patch, target = entry
-    tree = make_tree(repo, patch)
+    try:
+        tree = make_tree(repo, patch)
+    except RuntimeError as e:
+        return entry, {p: (None, 'patch does not apply to the current tree: ' + str(e)[-120:]) for p in props}
     try:
         res = {p: run_check(p, tree) for p in props}
     finally:
@@ -65,7 +68,10 @@ def main():
         base = os.path.join(VERIF, kind)
         if not os.path.isdir(base) or (args.kind and args.kind != kind):
             continue
-        for cid in sorted(os.listdir(base)):
+        ids = sorted(os.listdir(base))
+        if kind == 'preserving' and os.path.isdir(os.path.join(base, 'micro')):
+            ids += ['micro/' + x for x in sorted(os.listdir(os.path.join(base, 'micro')))]
+        for cid in ids:
             patch = os.path.join(base, cid, 'patch.diff')
             if not os.path.exists(patch):
                 continue
@@ -92,17 +98,25 @@ def main():
         for f in futs:
             (kind, cid, patch, target), res = f.result()
             if kind == 'seeded':
+                if target not in res:
+                    continue
                 rc = res.get(target, (None, ''))[0]
                 verdict = {1: 'caught', 2: 'UNDECIDED', 0: 'MISSED', None: 'not run'}[rc]
+                if rc is None and target in res and res[target][1].startswith('patch does not apply'):
+                    verdict = 'superseded (patch no longer applies)'
                 others = [p for p, (c, _) in res.items() if c == 1 and p != target]
                 print('seeded     {:6} breaks {}  {}{}'.format(cid, target, verdict, '  also: ' + ','.join(others) if others else ''))
                 if rc != 1 and rc is not None:
                     bad += 1
                     print('      ', res[target][1])
             else:
+                if any(c is None and m.startswith('patch does not apply') for c, m in res.values()):
+                    print('preserving {:6} PATCH DOES NOT APPLY to the current tree'.format(cid))
+                    bad += 1
+                    continue
                 alarms = [p for p, (c, _) in res.items() if c == 1]
                 undec = [p for p, (c, _) in res.items() if c == 2]
-                print('preserving {:6} false alarms: {}  undecided: {}'.format(cid, ','.join(alarms) or '-', ','.join(undec) or '-'))
+                print('preserving {:14} false alarms: {}  undecided: {}'.format(cid, ','.join(alarms) or '-', ','.join(undec) or '-'))
                 bad += len(alarms)
                 if args.v:
                     for p in alarms + undec:
